@@ -306,6 +306,73 @@ func runC03(r *engine.Run) {
 		}
 		c.Outcome("multi-item/ok")
 	})
+	// one payload list handed to two frames (the same application payload for two devices, a
+	// retransmission with the next counter, a shallow copy of a MACPayload): encrypting the first frame
+	// leaves the second frame's content - the caller's list - as it was, so the second is the key-stream
+	// transform of the plaintext too
+	r.PartDims("method/list-shared-by-two-frames", []string{"mtype:4", fmt.Sprintf("item lengths:%d", len(multi)), "key:3", "list{FRMPayload, FOpts (1.1 commands)}"}, uint64(4*len(multi)*3*2), func(c *engine.Case) {
+		mt := lorawan.MType(2 + c.Index%4)
+		lens := multi[(c.Index/4)%uint64(len(multi))]
+		key := c02Keys[(c.Index/4/uint64(len(multi)))%3]
+		fopts := c.Index/4/uint64(len(multi))/3 == 1
+		uplink := mt == lorawan.UnconfirmedDataUp || mt == lorawan.ConfirmedDataUp
+		c.Eval()
+		var items []lorawan.Payload
+		var plain []byte
+		if fopts {
+			cid := lorawan.DevStatusReq
+			if uplink {
+				cid = lorawan.LinkCheckReq
+			}
+			for i := 0; i < 1+len(lens); i++ {
+				items = append(items, &lorawan.MACCommand{CID: cid})
+				plain = append(plain, byte(cid))
+			}
+		} else {
+			for i, n := range lens {
+				b := fillBytes(n, byte(0x30+i*0x20))
+				plain = append(plain, b...)
+				items = append(items, &lorawan.DataPayload{Bytes: append([]byte(nil), b...)})
+			}
+		}
+		port := uint8(9)
+		mk := func(fcnt uint32) *lorawan.PHYPayload {
+			mp := &lorawan.MACPayload{FHDR: lorawan.FHDR{DevAddr: lorawan.DevAddr{1, 2, 3, 4}, FCnt: fcnt}, FPort: &port}
+			if fopts {
+				mp.FHDR.FOpts = items
+			} else {
+				mp.FRMPayload = items
+			}
+			return &lorawan.PHYPayload{MHDR: lorawan.MHDR{MType: mt, Major: lorawan.LoRaWANR1}, MACPayload: mp}
+		}
+		a, b := mk(77), mk(78)
+		for i, p := range []*lorawan.PHYPayload{a, b} {
+			fcnt := uint32(77 + i)
+			var err error
+			var got []byte
+			var ok bool
+			var want []byte
+			if fopts {
+				err = p.EncryptFOpts(keyOf(key))
+				got, ok = opaqueBytes(p.MACPayload.(*lorawan.MACPayload).FHDR.FOpts)
+				want = spec.XOR(plain, spec.FOptsKeystream(key, !uplink, uplink, 0x01020304, fcnt))
+			} else {
+				err = p.EncryptFRMPayload(keyOf(key))
+				got, ok = opaqueBytes(p.MACPayload.(*lorawan.MACPayload).FRMPayload)
+				want = spec.XOR(plain, spec.Keystream(key, uplink, 0x01020304, fcnt, len(plain)))
+			}
+			if err != nil {
+				c.Fail("method/shared-list/refused", fmt.Sprintf("%v frame %d of 2 built from one payload list: %v", mt, i+1, err), nil)
+				return
+			}
+			if !ok || !bytes.Equal(got, want) {
+				c.Fail("method/shared-list", fmt.Sprintf("%v frame %d of 2 built from one payload list (FOpts=%v, %d bytes): the method returned nil and left %x; the key-stream over the caller's plaintext gives %x", mt, i+1, fopts, len(plain), got, want), nil)
+				return
+			}
+		}
+		c.NonTrivial()
+		c.Outcome("shared-list/ok")
+	})
 	spM := (&engine.Space{}).Dim("mtype", 4).Dim("fport", len(c03PortAlphabet)).Dim("fopts-form", len(foForms)).Dim("frm-form", len(frmForms)).Dim("key", 3).Dim("devaddr", 3).Dim("fcnt", 5)
 	r.PartDims("method/PHYPayload", spM.Desc(), spM.N(), func(c *engine.Case) {
 		var ch [7]int
